@@ -221,10 +221,11 @@ def run(chk):
     for _ in range(30 if chk.tier == 'quick' else 400):
         nj = rng.choice([2, 3])
         busy = rng.randrange(nj)
-        t = rng.choice([0.2, 0.3])
-        xs.append({'seed': rng.randint(0, 10 ** 6), 'pool': {'n_jobs': nj, 'start_method': 'fork'}, 'latency': 1.0 + t + 1.0,
+        # (the busy worker takes its pill before the idle ones overrun, and is the one the pool waits for first or not)
+        t = rng.choice([0.5, 0.6])
+        xs.append({'seed': rng.randint(0, 10 ** 6), 'pool': {'n_jobs': nj, 'start_method': 'fork'}, 'latency': t + 0.6,
                    'ops': [{'op': 'apply_batch', 'tasks': [{'idx': i} for i in range(nj)], 'exit': True, 'worker_exit_timeout': t, 'exit_dur': rng.choice([50.0, 600.0]),
-                            'dur': {'kind': 'map', 'map': {str(busy): 1.0}, 'default': 0.01}, 'join_first': True, 'get_timeout': 5}]})
+                            'dur': {'kind': 'map', 'map': {str(busy): 0.3}, 'default': 0.01}, 'join_first': True, 'get_timeout': 5}]})
     xobs = run_scenarios(chk, 'worker_exit overruns in workers that reach it at different moments (DetSim)', xs, set(), nontrivial=lambda sc, o: True,
                          dist=lambda sc, o: {'n_jobs': sc['pool']['n_jobs']})
     for sc, o in zip(xs, xobs):
